@@ -23,8 +23,8 @@ LEVEL_TEXT = ("Lean 4 theorems for all graphs, selectors, hosts and node-map ite
               "when that closure contains a platform-incompatible target. Tied to the code by differential runs in process and through real "
               "`grog build/test` invocations whose executed commands are compared with the predicted set.")
 LEVEL_NOTE = ("`only_selected_run` (no other command runs) is proved in Props/Compose.lean by composing select_closed / select_eq_closure with the walker "
-              "and pool-task models of C03-C05 (their hypotheses CfgOK.closed and CfgOK.desc_iff are discharged there; acyclicity, which analysis.BuildGraph "
-              "checks (C11), stays a hypothesis); it is also sampled through the CLI traces (clean cache: executed set = selected targets). "
+              "and pool-task models of C03-C05 (their hypotheses CfgOK.closed and CfgOK.desc_iff are discharged there; acyclicity is discharged from C11 "
+              "(acyclic_of_findCycle: FindCycle reporting nothing on a successor function that contains the edges); it is also sampled through the CLI traces (clean cache: executed set = selected targets). "
               "Pattern parsing is the model of C17. "
               "Trusted: Lean kernel; propext/Classical.choice/Quot.sound; the correspondence harness; loaders and cobra/viper flag plumbing (CLI tie only).")
 TECHNIQUE = "Lean 4 proof over an executable model + differential correspondence (in-process selector and real CLI build traces)"
@@ -35,11 +35,18 @@ OBLIGATIONS = [
     "Grog.C12.select_order_independent",
     "Grog.C12.select_total",
     "Grog.C12.select_nodup",
+    "Grog.C12.alias_filtered_witness",
+    "Grog.C12.alias_bypass_witness_old",
     # composition with the walker / pool-task models (Props/Compose.lean)
     "Grog.C12.desc_iff",
     "Grog.C12.walker_cfg_ok",
     "Grog.C12.only_selected_run",
     "Grog.C12.unselected_never_started",
+    "Grog.C12.acyclic_of_c11",
+    "Grog.C12.acyclic_of_findCycle",
+    "Grog.C12.only_selected_run_c11",
+    "Grog.C12.selected_all_complete",
+    "Grog.C12.select_eq_closure_parsed",
 ]
 PROP_MODULES = ["GrogModel.Props.C12", "GrogModel.Props.Compose"]
 ASSUMPTIONS = [
@@ -78,6 +85,13 @@ def run(ctx):
     reqs.append(dict(base, nodes=[N("", "x", plats=["darwin/arm64"]), N("", "t")], edges=[[0, 1]], patterns=["//..."]))
     reqs.append(dict(base, nodes=[N("", "x", plats=["darwin/arm64"]), N("", "t")], edges=[], patterns=["//..."]))
     reqs.append(dict(base, nodes=[N("p", "a"), N("p2", "a"), N("p/q", "a")], edges=[], patterns=["//p/..."]))
+    # an alias is the target it points to: `--exclude-tag=slow //...` must not build `slow` because it has an alias; same for build/test
+    A = lambda pkg, name: {"pkg": pkg, "name": name, "target": False, "tags": [], "platforms": [], "bin": False}
+    an = [{"pkg": "", "name": "lib", "target": True, "tags": ["slow"], "platforms": [], "bin": False}, A("", "al"), A("", "al2"),
+          {"pkg": "", "name": "x_test", "target": True, "tags": [], "platforms": ["darwin/arm64"], "bin": False}, A("", "tal")]
+    for kw in (dict(exclude=["slow"]), dict(tags=["fast"]), dict(type="test"), dict(type="no_test"), dict(), dict(all_platforms=True, type="test")):
+        for pats in (["//..."], ["//:al2"], ["//:tal"]):
+            reqs.append(dict(base, nodes=an, edges=[[0, 1], [1, 2], [3, 4]], patterns=pats, **kw))
     # `testonly` is a dependency-visibility tag, not test-ness: a tagged non-test target is built by `grog build`, not by `grog test`
     # (unless a selected test depends on it)
     T = lambda pkg, name, tags=(): {"pkg": pkg, "name": name, "target": True, "tags": list(tags), "platforms": [], "bin": False}
@@ -125,7 +139,15 @@ def run(ctx):
         if ref is None:
             continue
         ref_checked += 1
-        if ref[0] == "platform":
+        def outcome(x):
+            return ("platform",) if not x.get("ok") else ("ok", set(x["selected"]), x["count"], x["skipped"])
+        if outcome(a) != ref and outcome(a) == G.ref_select(r, alias_mode="pattern-only"):
+            ctx.violation("an alias is selected by its pattern alone: the type / tag / exclude-tag / platform filters are not applied to the target it points to, "
+                          "so a target excluded by the filters (and not a dependency of any matching target) is built",
+                          {"kind": "oracle", "oracle": "reference selection (alias = the target it points to)", "request": r, "impl": a,
+                           "expected": "platform error" if ref[0] == "platform" else {"selected": sorted(ref[1]), "count": ref[2], "skipped": ref[3]}},
+                          signature="alias-bypasses-filters")
+        elif ref[0] == "platform":
             if a.get("ok"):
                 ctx.violation("a selected target has a platform-incompatible dependency but selection succeeded (partial build)",
                               {"kind": "oracle", "oracle": "reference selection", "request": r, "impl": a, "expected": "platform error"}, signature="platform-error-missed")
@@ -140,7 +162,7 @@ def run(ctx):
                               signature="selection-wrong-set")
             else:
                 preds = [G.ref_pattern(p, r["cur"]) for p in r["patterns"]]
-                direct = {i for i, n in enumerate(r["nodes"]) if G.ref_matches_filters(n, preds, r["tags"], r["exclude"], r["type"])}
+                direct = {i for i in range(len(r["nodes"])) if G.ref_node_selected(r["nodes"], es, i, preds, r["tags"], r["exclude"], r["type"], r["platform"], r["all_platforms"])[0]}
                 extra = rsel - direct
                 if extra and len(rsel) >= 2:
                     outcomes["with-closure-only-nodes"] += 1
@@ -252,7 +274,20 @@ def cli_build(ctx, grog, rng, w, stats, nontrivial):
     rep = {"request": req, "cli": args, "cwd": req["cur"], "impl": a, "stderr": err[-1200:]}
     if len(set(executed)) != len(executed):
         ctx.violation("a command ran more than once in one build", dict(rep, kind="oracle", oracle="each selected target once"), signature="command-ran-twice")
-    if ref is not None:
+    def cli_outcome(rf):
+        """what the CLI should show for a reference outcome: (build succeeds, executed labels)"""
+        if rf[0] == "platform":
+            return (False, [])
+        e = sorted(G.label_str(nodes[i]) for i in rf[1] if nodes[i]["target"])
+        return (bool(e), e)
+    old_ref = G.ref_select(req, alias_mode="pattern-only") if ref is not None else None
+    if ref is not None and (rc == 0, sorted(executed)) != cli_outcome(ref) and (rc == 0, sorted(executed)) == cli_outcome(old_ref):
+        stats["alias-bypass"] = stats.get("alias-bypass", 0) + 1
+        ctx.violation("`grog " + cmd + "` runs a target that the type / tag / exclude-tag / platform filters exclude and that no matching target depends on, "
+                      "because an alias pointing to it matches the pattern (aliases are selected by pattern alone)",
+                      dict(rep, kind="oracle", oracle="reference selection (CLI; alias = the target it points to)", expected=cli_outcome(ref)[1]),
+                      signature="alias-bypasses-filters")
+    elif ref is not None:
         if ref[0] == "platform":
             stats["platform-error"] += 1
             if rc == 0 or executed:
